@@ -97,4 +97,6 @@ Definition dispatch (tbl : sx) (name : bytes) (arg : sx) : sx :=
     let chunks := map get_bytes (get_list (nth_sx 1 arg)) in
     let '(fs, e, st) := feed mx r_init chunks in
     SL [sx_list SB fs; sx_rerr e; SB (r_buf st); sx_bool (r_magic st); sx_opt SN (r_len st)]
+  else if is "send_stream" then
+    SB (send_stream (map get_bytes (get_list arg)))
   else SL [SN 777].
